@@ -45,6 +45,12 @@ impl VacancyTracker {
         self.next_vacancy
     }
 
+    /// Verification hook: the vacancy bitmap behind the tracker. See `crate::verif`.
+    #[cfg(folo_verif)]
+    pub(crate) fn verif_map(&self) -> &VacancyMap {
+        &self.has_vacancy
+    }
+
     /// Informs the tracker that the number of slabs has changed.
     ///
     /// Any added slabs are assumed to be empty.
